@@ -26,11 +26,13 @@ impl<'a> RtcpPacketParser<'a> for Sdes<'a> {
         parser::check_packet::<Self>(data)?;
 
         let mut chunks = vec![];
-        if data.len() > Self::MIN_PACKET_LEN {
+        // the chunks end where the (optional) padding starts
+        let chunks_end = data.len() - parser::parse_padding(data).unwrap_or(0) as usize;
+        if chunks_end > Self::MIN_PACKET_LEN {
             let mut offset = Self::MIN_PACKET_LEN;
 
-            while offset < data.len() {
-                let (chunk, end) = SdesChunk::parse(&data[offset..])?;
+            while offset < chunks_end {
+                let (chunk, end) = SdesChunk::parse(&data[offset..chunks_end])?;
                 offset += end;
                 chunks.push(chunk);
             }
